@@ -309,7 +309,7 @@ func c07Edits(base []byte, yield func(C07Case) bool) bool {
 }
 
 // c07TextTokens are malformed text fragments inserted at every position.
-var c07TextTokens = []string{"::", "\\q", "\\x4", "\\u12", "''", "'''", "{{", "}}", "/*", "//", ",,", "00", "__", "1.5.2", "null.foo", "2001-02-30", "2001-13-01T", "2001-01-01T24:00Z", "2001-01-01T00:60Z", "2001-01-01T00:00:60Z", "2001-01-01T00:00", "+inf1", "0x", "0b2", "1e", "1d+", "\\\n", "\\uDC00", "\\uD83D", "\\uD83D\\u0041", "\"\\uDE00\"", "'\\uD800'", "\\U0000D800", "\\U0000dfff", "\\U0000DBFF\\uDC00", "\\uD83D\\U0000DE00", "\\U00110000", "\\U0011", "\\UFFFFFFFF", "\\U0000D83D\\U0000DE00", "2001-02-03T04:05+01:60", "2001-02-03T04:05:06-24:00", "2001-02-03T04:05:06.5+24:00", "2001-02-03T04:05-00:60", "2001-02-03T04:05+1:00", "2001-02-03T04:05+0100"}
+var c07TextTokens = []string{"::", "\\q", "\\x4", "\\u12", "''", "'''", "{{", "}}", "/*", "//", ",,", "00", "__", "1.5.2", "null.foo", "2001-02-30", "2001-13-01T", "2001-01-01T24:00Z", "2001-01-01T00:60Z", "2001-01-01T00:00:60Z", "2001-01-01T00:00", "+inf1", "0x", "0b2", "1e", "1d+", "\\\n", "\\uDC00", "\\uD83D", "\\uD83D\\u0041", "\"\\uDE00\"", "'\\uD800'", "\\U0000D800", "\\U0000dfff", "\\U0000DBFF\\uDC00", "\\uD83D\\U0000DE00", "\\U00110000", "\\U0011", "\\UFFFFFFFF", "\\U0000D83D\\U0000DE00", "2001-02-03T04:05+01:60", "2001-02-03T04:05:06-24:00", "2001-02-03T04:05:06.5+24:00", "2001-02-03T04:05-00:60", "2001-02-03T04:05+1:00", "2001-02-03T04:05+0100", "\\u0041", "\\U00000041", "\\u00e9", "2001-01-01T00:00:00.5", "2001-01-01T00:00:00.123456789", "2001-01-01T00:00:00."}
 
 // c07BinTokens are complete but invalid binary values (the property's list:
 // negative zero of every width, illegal tag/length pairs, impossible calendar
